@@ -258,11 +258,16 @@ func runParked(res *caseResult, idx int, dir, tier string, rnd *rand.Rand) {
 			if imm {
 				res.count("parked_with_immutable_memdb", 1)
 			}
-			if imm && committed {
-				res.count("parked_with_immutable_memdb_and_committed_table", 1)
-				// the table file of the parked generation is part of the family's version now (and the generation is
-				// still attached as immutable memory database): the labelling tracker has to know the file
-				still = r.track.snapshotImmutable(target.FamilyTime(), 0)
+			if committed {
+				// the table file of the parked generation is part of the family's version now: the labelling tracker
+				// has to know the file (window and compress buffer of the generation are merged into one place)
+				if imm {
+					// ... and the generation is still attached as immutable memory database (a tree without 094b8ca)
+					res.count("parked_with_immutable_memdb_and_committed_table", 1)
+					still = r.track.snapshotImmutable(target.FamilyTime(), 0)
+				} else {
+					res.count("parked_with_committed_table_and_detached_memdb", 1)
+				}
 				r.track.flushEnd(target.FamilyTime(), 0)
 			}
 			inside := func(tag string) {
